@@ -150,7 +150,14 @@ def c18_streams(ctx):
               "that sets an environment variable and the working directory — the helper child reports argv (hex), whether its process group / session differ "
               "from the harness's, cwd and the variable (oracle)")
     n2 = 3000 if ctx["thorough"] else 500
-    s2 = simple_stream("C18", "cli-argv", "cli", "wxcliargv", [ctx["seed"], n2], ["pure"],
+    def noshell_oracle(c, obs, mo):
+        # "Without a shell the child receives the program and every argument byte for byte … with no splitting or interpretation": with -n the
+        # argv captured right before the spawn is the command vector of the command line, word for word
+        f = c.split("\t")
+        if f[1] == "1" and obs.startswith("argv=") and obs.split(" wraps=")[0][5:] != f[5]:
+            return f"-n (no shell): the command line's words are `{f[5]}` (hex), the child's argv is `{obs.split(' wraps=')[0][5:]}`"
+        return None
+    s2 = simple_stream("C18", "cli-argv", "cli", "wxcliargv", [ctx["seed"], n2], ["pure"], oracle=noshell_oracle,
                        classify=lambda c, obs: ["noshell=" + c.split("\t")[1], "wrap=" + c.split("\t")[4], ("exec" if " x2d63" not in obs else "shell -c")])
     s2.note = ("the CLI half: random -n / --shell=<x> / $SHELL / --wrap-process and command words through the REAL argument parser and make_config (hook H1); the program, "
                "arguments and wrappers captured in the CLI's spawn hook right before the spawn vs interpret + argv + wrappers of the model")
@@ -602,6 +609,12 @@ def job_stream(pid, ctx, n_random=None):
                     latest = max(a[u][0] for a in ats)
                     if it.get(u) is None: s.oracle_failures.append((i, c, ta, f"[C07] ticket {u} never resolves; its control completes (and every admissible run resolves the ticket) at {latest} ms at the latest"))
                     elif it[u][0] > latest: s.oracle_failures.append((i, c, ta, f"[C07] ticket {u} resolves at {it[u][0]} ms, later than the completion of its control ({latest} ms at the latest)"))
+                    # C10 "awaiting the last ticket implies every earlier control has run": a ticket is the flag of the LAST control its API call sent
+                    # (c10_ran: raised ⇒ taken, and everything sent before it in that queue taken before it). Resolving earlier — at an earlier instant,
+                    # or before effects that every admissible run puts in front of it — means it resolved before that control had run
+                    earliest = min(a[u] for a in ats)
+                    if it.get(u) is not None and it[u] < earliest:
+                        s.oracle_failures.append((i, c, ta, f"[C10] ticket {u} resolves at {it[u][0]} ms after {it[u][1]} process-visible effects; in every admissible run the control it stands for (the last one its API call sent) has run only at {earliest[0]} ms after {earliest[1]} effects: awaiting the ticket does not imply the controls have run"))
         # C09 "the job's observable state (pending, running, finished with status, and the previous run's result)": what a run marker saw
         # (JobTaskContext.current / previous) must be what some admissible run of the documented machine shows at that marker (c09_whole_run)
         def marks(t): return {e.split(":")[2]: ":".join(e.split(":")[3:5]) for e in t.split("|") if e.split(":")[1:2] == ["run"] and len(e.split(":")) >= 5}
